@@ -1,9 +1,9 @@
 import vf
 def mono_jobs(prop):
     U = [vf.Unit('cmdline/io.c', flags=vf.PATHMAX64)]
-    J = [vf.Job('%s/mono/writer_errors' % prop, ['C08_mono.c', 'stubs/log_stubs.c'], units=U, entry='c08_mono_errors', cflags=vf.PATHMAX64, unwind=9, timeout=900, mem_gb=8, native=True,
+    J = [vf.Job('%s/mono/writer_errors/levels%d' % (prop, n), ['C08_mono.c', 'stubs/log_stubs.c'], units=U, entry='c08_mono_errors', defines=['NLEV=%d' % n], cflags=vf.PATHMAX64, unwind=9, timeout=900, mem_gb=8, native=True,
                 funcs=['io_write_preset_mono', 'io_parity_write_mono', 'io_write_next_mono', 'io_writer_sched', 'io_writer_sched_empty'], cost=10,
-                sample={'parity levels': '1..6 symbolic', 'outcome of each level\'s write': 'symbolic (done / the four error states)', 'error counters left by earlier stripes': 'symbolic'}),
+                sample={'parity levels': n, 'outcome of each level\'s write': 'symbolic (done / the four error states)', 'error counters left by earlier stripes': 'symbolic'}) for n in range(1, 7)] + [
          vf.Job('%s/mono/negctl' % prop, ['C08_mono.c', 'stubs/log_stubs.c'], units=U, entry='c08_negctl', defines=['NEGCTL'], cflags=vf.PATHMAX64, unwind=9, kind='negctl', native=True, sample={'wrong_oracle': 'writer never run'})]
     return J
 def build(tier, seed):
